@@ -122,12 +122,20 @@ func reposMapDecode(b []byte) (ReposMap, error) {
 		return nil, fmt.Errorf("unsupported stringSet encoding version %d", v)
 	}
 
-	// Length
+	// Length. Every entry and every branch takes at least one byte of input, so
+	// a count larger than what is left (or negative, after the conversion to
+	// int) is malformed. Check before allocating or looping on it.
 	l := r.uvarint()
+	if l < 0 || l > len(r.b) {
+		return nil, fmt.Errorf("malformed %s", r.typ)
+	}
 	m := make(map[uint32]MinimalRepoListEntry, l)
 
 	// Pre-allocate slice for all branches
 	allBranchesLen := r.uvarint()
+	if allBranchesLen < 0 || allBranchesLen > len(r.b) {
+		return nil, fmt.Errorf("malformed %s", r.typ)
+	}
 	allBranches := make([]RepositoryBranch, 0, allBranchesLen)
 
 	for range l {
@@ -138,6 +146,10 @@ func reposMapDecode(b []byte) (ReposMap, error) {
 			indexTimeUnix = int64(r.uvarint())
 		}
 		lb := r.uvarint()
+		if lb < 0 || lb > cap(allBranches)-len(allBranches) {
+			// more branches than announced in allBranchesLen
+			return nil, fmt.Errorf("malformed %s", r.typ)
+		}
 		for range lb {
 			allBranches = append(allBranches, RepositoryBranch{
 				Name:    r.str(),
@@ -174,7 +186,7 @@ func (b *binaryReader) uvarint() int {
 
 func (b *binaryReader) str() string {
 	l := b.uvarint()
-	if l > len(b.b) {
+	if l < 0 || l > len(b.b) {
 		b.b = nil
 		b.err = fmt.Errorf("malformed %s", b.typ)
 		return ""
